@@ -54,7 +54,12 @@ Scan(d, t, x, i, line, g, open) ==
         IF raw.rk = "ws" THEN Scan(d, t, x, raw.e, line2, g, open)
         ELSE LET tk == Tok(d, t, raw, line)
                  g2 == GStep(DialectCfg(d), g, tk)
-                 open2 == open \/ tk.open
+                 (* NULL / TRUE / FALSE used as a parameter or block name: not reserved by the grammars, never written
+                    as names by anything; whether a loader takes them as names is left open *)
+                 kwName(w0) == EqFold(w0, "NULL") \/ EqFold(w0, "TRUE") \/ EqFold(w0, "FALSE")
+                 newName == g2.verdict = "live" /\ g2.name # NoName /\ g2.name # g.name /\ kwName(g2.name)
+                 newBlock == g2.verdict = "live" /\ Len(g2.stk) > 1 /\ g2.phase = "bn" /\ kwName(g2.stk[Len(g2.stk)].name)
+                 open2 == open \/ tk.open \/ newName \/ newBlock
              IN IF g2.verdict = "accept" THEN (IF open2 THEN Out("unspec", "", "", raw.b - 1, g2)
                                                ELSE Out("accept", "", "", raw.e - 1, g2))
                 ELSE IF g2.verdict = "reject" THEN (IF open2 THEN Out("unspec", "", "", raw.b - 1, g2)
